@@ -19,7 +19,8 @@ func init() {
 			"C11.2 decode safety: every index, slice and binary.UintN in a GetFrom / Decode / IsChannelData / consumeSingleTURNFrame is proven in range from the preceding size checks (undecided = failure); " +
 			"C11.3 ChannelData: Decode returns nil only on the Valid() edge and when the declared length does not exceed the bytes available, and truncates Data to exactly the declared length; WriteHeader writes Number and len(Data) into the first four bytes; after the payload has been appended, Encode only ever extends Raw by appending constant zero bytes (no re-slicing into stale capacity); " +
 			"C11.4 the integer an AddTo writes is a pure conversion of the receiver's value (no clamping or substitution path), matching the full width GetFrom reads; " +
-			"C11.5 the datagram recogniser IsChannelData does not involve the padding rule (it agrees with Decode on unpadded datagrams).",
+			"C11.5 the datagram recogniser IsChannelData does not involve the padding rule (it agrees with Decode on unpadded datagrams); " +
+			"C11.6 attribute encoders refuse a value only through the STUN library's own checks (which the decoders apply too): no refusal of their own makes a decoded value un-encodable.",
 		NotCovered: "round-trip *equality* of values over the whole domain is numerical and is not claimed; pion/stun's own attribute framing; the padding amount (0..3) is checked structurally, not arithmetically.",
 		Run:        runC11,
 	})
@@ -466,6 +467,7 @@ func runC11(c *Ctx) {
 		}
 	}
 	ruleRecogniserIgnoresPadding(c, "C11.5")
+	ruleEncodersTotal(c, "C11.6")
 }
 
 // ruleRecogniserIgnoresPadding (C11.5): IsChannelData decides whether a DATAGRAM is a
@@ -513,5 +515,96 @@ func ruleRecogniserIgnoresPadding(c *Ctx, rule string) {
 		c.OK(rule, fname(fn), "IsChannelData", w.pos(fn.Pos()), "compares the declared length with the bytes present; padding plays no part")
 	} else {
 		c.Bad(rule, fname(fn), "IsChannelData", w.pos(fn.Pos()), bad+": an unpadded ChannelData datagram (padding is optional over UDP) that Decode accepts is not recognised as ChannelData")
+	}
+}
+
+// ruleEncodersTotal (C11.6): what the decoder accepts, the encoder must be able to write back
+// (decode∘encode = id on the decoder's range). An attribute encoder therefore refuses a value
+// only through the codec library's own checks (stun.CheckSize, AddToAs …), which the decoder
+// applies as well — it has no refusal of its own (a range test on a port, a nil test on an IP)
+// that would make a decoded value un-encodable.
+func ruleEncodersTotal(c *Ctx, rule string) {
+	w := c.W
+	c.Rule(rule, "encoders are total on what decoders yield: every error an AddTo method of package proto (with a GetFrom sibling) can return is nil or the result of a call into the STUN library; none is produced by the module itself", 9)
+	protoPkg := w.tpkg("proto")
+	sc := protoPkg.Scope()
+	var names []string
+	for _, n := range sc.Names() {
+		if tn, ok := sc.Lookup(n).(*types.TypeName); ok && !tn.IsAlias() {
+			names = append(names, n)
+		}
+	}
+	sort.Strings(names)
+	var fromLib func(v ssa.Value, d int) (bool, string)
+	fromLib = func(v ssa.Value, d int) (bool, string) {
+		v = stripIface(w.resolveLoad(v))
+		if isNilConst(v) {
+			return true, ""
+		}
+		if d > 4 {
+			return false, "too deep"
+		}
+		switch x := v.(type) {
+		case *ssa.Phi:
+			for _, e := range x.Edges {
+				if ok, why := fromLib(e, d+1); !ok {
+					return false, why
+				}
+			}
+			return true, ""
+		case *ssa.Call, *ssa.Extract:
+			call, _ := callOf(v)
+			if call == nil {
+				return false, w.desc(v)
+			}
+			if call.Call.IsInvoke() {
+				return false, "a dynamic call"
+			}
+			h := call.Call.StaticCallee()
+			if h == nil {
+				return false, "a dynamic call"
+			}
+			if h.Pkg != nil && strings.Contains(h.Pkg.Pkg.Path(), "pion/stun") {
+				return true, ""
+			}
+			if w.IsMod[h] && len(h.Blocks) > 0 {
+				// a module helper: only if everything IT returns comes from the library
+				for _, r := range returnsOf(h) {
+					for _, res := range r.Results {
+						if res.Type().String() != "error" {
+							continue
+						}
+						if ok, why := fromLib(res, d+1); !ok {
+							return false, fname(h) + " returns " + why
+						}
+					}
+				}
+				return true, ""
+			}
+			return false, "the result of " + h.String()
+		}
+		return false, w.desc(v)
+	}
+	for _, tn := range names {
+		add := w.FuncOpt("proto", tn, "AddTo")
+		get := w.FuncOpt("proto", tn, "GetFrom")
+		if add == nil || get == nil {
+			continue
+		}
+		c.Anchor(rule, tn)
+		bad := ""
+		for _, r := range returnsOf(add) {
+			if len(r.Results) != 1 {
+				continue
+			}
+			if ok, why := fromLib(r.Results[0], 0); !ok {
+				bad = "the return at " + w.instrPos(r) + " yields " + why
+			}
+		}
+		if bad == "" {
+			c.OK(rule, "proto."+tn, "AddTo", w.pos(add.Pos()), "refuses only through the STUN library's own checks")
+		} else {
+			c.Bad(rule, "proto."+tn, "AddTo", w.pos(add.Pos()), "the encoder can refuse a value by a test of its own ("+bad+"): a value the decoder accepts (and every caller may hold) cannot be written back — decode∘encode is no longer the identity on the decoder's range")
+		}
 	}
 }
